@@ -84,7 +84,7 @@ fn main() {
         n += 1;
         // thorough: the 5-event layer goes through the sequential-consistency tester only (C08 covers the other)
         emit_history(&mut out, &init, h, if h.len() >= 5 { 2 } else { 3 }, "x-");
-        if n % 5000 == 1 { out.sample(&format!("exhaustive: (reg 0) {}", calls_sx::<Register<u8>>(h))); }
+        if n % 20000 == 1 { out.sample(&format!("exhaustive: (reg 0) {}", calls_sx::<Register<u8>>(h))); }
     });
     seeded(&mut out, &mut r, arg_u64("--n", if th { 80_000 } else { 8_000 }) as usize, 3);
     let forks = arg_u64("--forks", if th { 15_000 } else { 2_000 });
